@@ -65,6 +65,130 @@ fn cont(c: u8) -> bool {
 }
 
 // BEGIN core-only
+use crate::storage::{Storage, StorageFile};
+use std::io::{Read, Seek, SeekFrom, Write};
+
+/// One-file in-memory storage driven through the real `Storage` / `StorageFile`
+/// traits (append-mode semantics: every write lands at the end of the file).
+pub struct Shared(pub *mut Vec<u8>);
+unsafe impl Send for Shared {}
+unsafe impl Sync for Shared {}
+
+pub struct MemStorage {
+  pub data: Shared,
+  pub root: std::path::PathBuf,
+}
+
+pub struct MemFile {
+  pub data: Shared,
+  pub pos: u64,
+}
+
+impl MemStorage {
+  pub fn new(image: Vec<u8>) -> Self {
+    MemStorage {
+      data: Shared(Box::into_raw(Box::new(image))),
+      root: std::path::PathBuf::new(),
+    }
+  }
+  pub fn bytes(&self) -> &mut Vec<u8> {
+    unsafe { &mut *self.data.0 }
+  }
+}
+
+impl Read for MemFile {
+  fn read(&mut self, buf: &mut [u8]) -> std::io::Result<usize> {
+    let d = unsafe { &*self.data.0 };
+    let p = self.pos as usize;
+    if p >= d.len() {
+      return Ok(0);
+    }
+    let n = std::cmp::min(buf.len(), d.len() - p);
+    buf[..n].copy_from_slice(&d[p..p + n]);
+    self.pos += n as u64;
+    Ok(n)
+  }
+}
+
+impl Write for MemFile {
+  fn write(&mut self, buf: &[u8]) -> std::io::Result<usize> {
+    // O_APPEND: every write lands at the current end of the file
+    let d = unsafe { &mut *self.data.0 };
+    d.extend_from_slice(buf);
+    self.pos = d.len() as u64;
+    Ok(buf.len())
+  }
+  fn flush(&mut self) -> std::io::Result<()> {
+    Ok(())
+  }
+}
+
+impl Seek for MemFile {
+  fn seek(&mut self, to: SeekFrom) -> std::io::Result<u64> {
+    let d = unsafe { &*self.data.0 };
+    self.pos = match to {
+      SeekFrom::Start(p) => p,
+      SeekFrom::End(o) => (d.len() as i64 + o) as u64,
+      SeekFrom::Current(o) => (self.pos as i64 + o) as u64,
+    };
+    Ok(self.pos)
+  }
+}
+
+impl StorageFile for MemFile {
+  fn set_len(&mut self, len: u64) -> anyhow::Result<()> {
+    let d = unsafe { &mut *self.data.0 };
+    d.resize(len as usize, 0);
+    Ok(())
+  }
+  fn sync_all(&mut self) -> anyhow::Result<()> {
+    Ok(())
+  }
+}
+
+impl Storage for MemStorage {
+  fn root(&self) -> &std::path::Path {
+    &self.root
+  }
+  fn ensure_dir(&self, _path: &std::path::Path) -> anyhow::Result<()> {
+    Ok(())
+  }
+  fn exists(&self, _path: &std::path::Path) -> bool {
+    true
+  }
+  fn open_read(&self, _path: &std::path::Path) -> anyhow::Result<crate::storage::DynFile> {
+    Ok(Box::new(MemFile {
+      data: Shared(self.data.0),
+      pos: 0,
+    }))
+  }
+  fn open_write(&self, path: &std::path::Path) -> anyhow::Result<crate::storage::DynFile> {
+    self.open_read(path)
+  }
+  fn open_append(&self, _path: &std::path::Path) -> anyhow::Result<crate::storage::DynFile> {
+    Ok(Box::new(MemFile {
+      data: Shared(self.data.0),
+      pos: self.bytes().len() as u64,
+    }))
+  }
+  fn read_to_end(&self, _path: &std::path::Path) -> anyhow::Result<Vec<u8>> {
+    Ok(self.bytes().clone())
+  }
+  fn write_all(&self, _path: &std::path::Path, _data: &[u8]) -> anyhow::Result<()> {
+    Ok(())
+  }
+  fn atomic_write(&self, _path: &std::path::Path, _data: &[u8]) -> anyhow::Result<()> {
+    Ok(())
+  }
+  fn remove(&self, _path: &std::path::Path) -> anyhow::Result<()> {
+    Ok(())
+  }
+  fn remove_dir_all(&self, _path: &std::path::Path) -> anyhow::Result<()> {
+    Ok(())
+  }
+}
+
+
 /// Stub for crc32fast's runtime CPU-feature dispatch: always take the portable
 /// table implementation (the PCLMULQDQ one is inline asm, unsupported by CBMC).
 pub fn stub_crc_specialized(_init: u32, _amount: u64) -> Option<crc32fast::Hasher> {
